@@ -110,14 +110,17 @@ def readDigitsGo (acc rev : Str) (cur : Char) : Str → Option (Str × Cursor)
 
 def readDigits (c : Cursor) : Option (Str × Cursor) := readDigitsGo [] c.rev c.cur c.rest
 
-/-- `IsNext(s)` for an ASCII literal `s` (byte index = rune index): on the first mismatch at index
-`i` the cursor is moved back by `i` — also when some of the `i` calls of `next()` did not move it
-(end of source), which is how the Go code can end up *before* where it started. -/
-def isNextGo : Str → Nat → Cursor → Bool × Cursor
+/-- `IsNext(s)` (repaired, /verif/pending_fixes/C14-*-cursor-isnext-restore.patch): on the first
+mismatch the cursor goes back to where it started (`c0`). The unrepaired code called `Unread(i)` with
+`i` the index of the mismatch — also when some of the `i` calls of `next()` had not moved the cursor
+(end of source), so it could end up *before* its start: on a text ending in `//\n-` the loop of
+`ParseSchema` then re-read the comment for ever. `next()` not moving at the last rune still means
+that `IsNext("//")` holds on a text that ends in a single `/`. -/
+def isNextGo : Str → Cursor → Cursor → Bool × Cursor
   | [], _, c => (true, c)
-  | e :: es, i, c => if c.cur = e then isNextGo es (i + 1) c.nextOrStay else (false, c.unread i)
+  | e :: es, c0, c => if c.cur = e then isNextGo es c0 c.nextOrStay else (false, c0)
 
-def isNext (s : Str) (c : Cursor) : Bool × Cursor := isNextGo s 0 c
+def isNext (s : Str) (c : Cursor) : Bool × Cursor := isNextGo s c c
 
 end Cursor
 end Mtv.Tlgen
